@@ -140,6 +140,17 @@ CLAIMS["C05"] = {
     "note": TB + "The reference recogniser is our reading of Appendix B; it shares no code with apollo-parser.",
 }
 
+CLAIMS["C11"] = {
+    "technique": "Lean 4 proof (line/column function = documented rule, all texts and offsets) + exhaustive correspondence + AST location walk on the implementation",
+    "text": "Theorem line_column_spec: for EVERY source text and byte offset the model of the (repaired) SourceFile::get_line_column — scan bytes before the offset "
+            "for \\n / \\r\\n / \\r, then recount characters from the line start — equals the documented rule written as one pass with a running line and column "
+            "(columns count Unicode scalar values; FF, U+2028, U+0085 do not start lines); offsets inside the file always have a position. Tied by correspondence on "
+            "every offset (incl. non-boundary and past-the-end) of all strings ≤5/6 over {a, é, emoji, LF, CR, FF, U+2028, U+0085, space} and generated documents (728k cases). "
+            "PARTIAL: 'every AST name's location covers exactly its text, every node lies inside its file, JSON errors report those positions' is checked on the "
+            "implementation by walking every name/node of generated ASTs (from_cst.rs is not modelled); one known finding inherited from C02.",
+    "note": TB + "Diagnostic rendering (ariadne) keeps its own line table and is out of scope of the proved function.",
+}
+
 ALL = [f"C{i:02d}" for i in range(1, 34)]
 NOT_APPLICABLE = {p: "check not built yet in this session (planned, see DESIGN.md §9); not a claim that the technique cannot apply"
                   for p in ALL if p not in CLAIMS}
